@@ -38,6 +38,22 @@ func c15Enc(published uint32, expires uint16) []byte {
 	return cat(u16(7), rr.Bytes(32), u32(published), u16(int(expires)), u16(0), u16(70), rr.Bytes(70), rr.Bytes(64))
 }
 
+// the same structures with the OFFLINE_KEYS flag and an offline block whose own expiry is offExp
+func c15OfflineBlock(rr *Rng, offExp uint32) []byte {
+	return cat(u32(offExp), u16(7), rr.Bytes(32), rr.Bytes(64))
+}
+func c15LS2Offline(published uint32, expires uint16, offExp uint32) []byte {
+	if c15Dest == nil {
+		c15Dest = genIdentTypes(&Rng{99}, 7, 4, false).Encode()
+	}
+	rr := &Rng{uint64(published)<<16 | uint64(expires)}
+	return cat(c15Dest, u32(published), u16(int(expires)), u16(1), c15OfflineBlock(rr, offExp), []byte{0, 0, 1}, u16(4), u16(32), rr.Bytes(32), []byte{2}, genLease2(rr), genLease2(rr), rr.Bytes(64))
+}
+func c15EncOffline(published uint32, expires uint16, offExp uint32) []byte {
+	rr := &Rng{uint64(published)<<16 | uint64(expires)}
+	return cat(u16(7), rr.Bytes(32), u32(published), u16(int(expires)), u16(1), c15OfflineBlock(rr, offExp), u16(70), rr.Bytes(70), rr.Bytes(64))
+}
+
 func runC15(c *Ctx) {
 	r := c.R
 	// second <-> millisecond conversions over the whole range of millisecond dates below 2^63:
@@ -105,6 +121,23 @@ func runC15(c *Ctx) {
 				c.Check("enc_expiration_exact", pu == int64(p) && eu == exact, "EncryptedLeaseSet.ExpirationTime", args, "", fmt.Sprintf("got %d want %d", eu, exact))
 				return OK(i64(pu), i64(eu))
 			})
+		}
+		// with offline keys: the transient key's own expiry — earlier than, equal to or later than
+		// published + expires — is a different field and does not enter the structure's expiration
+		if e != 0 {
+			for _, offExp := range []uint32{1, p, uint32(exact & 0xffffffff), 1<<32 - 1, 1 << 31} {
+				if offExp == 0 {
+					continue
+				}
+				if el, _, err := encrypted_leaseset.ReadEncryptedLeaseSet(c15EncOffline(p, e, offExp)); err == nil {
+					c.Check("enc_expiration_exact", el.ExpirationTime().Unix() == exact, "EncryptedLeaseSet.ExpirationTime (offline keys)", append(args, u64b(uint64(offExp))), "",
+						fmt.Sprintf("offline expiry %d: got %d want %d", offExp, el.ExpirationTime().Unix(), exact))
+				}
+				if ls, _, err := lease_set2.ReadLeaseSet2(c15LS2Offline(p, e, offExp)); err == nil {
+					c.Check("ls2_expiration_exact", ls.ExpirationTime().Unix() == exact, "LeaseSet2.ExpirationTime (offline keys)", append(args, u64b(uint64(offExp))), "",
+						fmt.Sprintf("offline expiry %d: got %d want %d", offExp, ls.ExpirationTime().Unix(), exact))
+				}
+			}
 		}
 		c.Case(E_MetaExpiration, args, func() Obs {
 			m, _, err := meta_leaseset.ReadMetaLeaseSet(c15Meta(p, e, p))
